@@ -87,7 +87,7 @@ def total_alpha_spec(n, timeout, first=None):
 
 # token alphabets: dispatch macros are several characters long, so character alphabets of length <= 3 never form them
 TOKENS_DISPATCH = ["#(", "% ", "#'", "#_", "#{", "{", "}", "(", ")", "[", "]", "#:q{", ":k ", "a ", "1 ", "##Inf ", "##", "#uuid ", '"x" ', "\\a ",
-                   "#py ", "^", "@", "~@", "`", "#inst ", '#"', "'", "#?(", "#?@(", ":lpy ", "#b ", "#queue ", "nil "]
+                   "#py ", "^", "@", "~@", "`", "#inst ", '#"', "'", "#?(", "#?@(", ":lpy ", "#b ", "#queue ", "nil ", "#:q", "#::", " "]
 TOKENS_COND = ["#?(", "#?@(", ":clj ", ":lpy ", ":default ", "clj ", "1 ", "[", "]", ")", "("]
 
 
